@@ -39,7 +39,7 @@ RULE = (
     "pairs (thorough 264 = 69696), every want_unchanged/include_trees/change_type_same combination, 7 fixed path-filter "
     "sets (with want_unchanged=False, change_type_same=False), 5 RenameDetector configurations, 5 change-list shapes; "
     "every pair is also diffed by C git (plain, -t, -M100%, each filter set).  part B: Hypothesis pairs (quick 16x100, "
-    "thorough 16x9000) of flat listings (1-14 puts over a name alphabet of bytes sorting around '/', depth <=5, modes "
+    "thorough 16x5000) of flat listings (1-14 puts over a name alphabet of bytes sorting around '/', depth <=5, modes "
     "100644/100755/120000/160000, a blob pool with a similarity ladder) related by edit scripts (add, delete, "
     "delete-directory, chmod, retype, modify, similar-modify, rename, similar-rename, copy, move-directory, swap, "
     "file->dir, dir->file), rename-centric scripts, independent pairs, identical, empty and None sides, x 0-3 path "
@@ -83,6 +83,18 @@ def D():
         for r, p in zip(_D.rust, _D.py):
             if r is p:
                 raise HarnessError(f"Rust twin of {p.__name__} is not loaded (NEEDS_RUST)")
+
+        class CountingStore(dos.MemoryObjectStore):
+            """Records which objects are fetched (to observe that identical subtrees are pruned)."""
+
+            loaded = None
+
+            def __getitem__(self, sha):
+                if self.loaded is not None:
+                    self.loaded.append(sha)
+                return super().__getitem__(sha)
+
+        _D.Store = CountingStore
         _D.blobs = [do.Blob.from_string(data) for data in G.POOL]
         _D.blob_ids = [M.blob_id(data) for data in G.POOL]
         for b, i in zip(_D.blobs, _D.blob_ids):
@@ -391,7 +403,7 @@ def delta_shape(changes):
 
 def run_impl(F, case, A, B, bA, bB, a_id, b_id, labels):
     d = D()
-    store = d.dos.MemoryObjectStore()
+    store = d.Store()
     for spec in (case["A"], case["B"]):
         for _p, _m, r in spec:
             if isinstance(r, int):
@@ -460,7 +472,20 @@ def run_impl(F, case, A, B, bA, bB, a_id, b_id, labels):
             LA, LB = (fullA, fullB) if it else (A, B)
             for cts in (False, True):
                 model = M.diff_model(LA, LB, wu, cts)
+                store.loaded = []
                 ch = norm(F.call("tree_changes", lambda: list(d.dt.tree_changes(store, a_id, b_id, want_unchanged=wu, include_trees=it, change_type_same=cts))))
+                loaded, store.loaded = set(store.loaded), None
+                if not wu and a_id is not None and b_id is not None:
+                    # identical subtrees must be pruned, not walked (ids that also occur at a non-identical place do not count)
+                    ida = {p: t[0] for p, t in bA.trees.items()}
+                    idb = {p: t[0] for p, t in bB.trees.items()}
+                    same = {t for p, t in ida.items() if idb.get(p) == t}
+                    same -= {t for p, t in ida.items() if idb.get(p) != t} | {t for p, t in idb.items() if ida.get(p) != t}
+                    if same & loaded:
+                        try:
+                            F("tree_changes:identical-subtree-not-pruned", f"tree_changes fetched {sorted(same & loaded)!r}, trees that are identical at the same path on both sides")
+                        except _Excluded:
+                            pass
                 try:
                     check_changes(F, "tree_changes", ch, LA, LB, wu, cts, model)
                 except _Excluded:
@@ -1002,7 +1027,7 @@ def run(ctx):
     ctx.parallel(_part_a, [(ctx.thorough, 16, k) for k in range(16)])
     ctx.parallel(_part_c, [(16, k) for k in range(16)])
     before = ctx.evaluations
-    ctx.parallel(_part_b, [ctx.scale(100, 9000)] * 16)
+    ctx.parallel(_part_b, [ctx.scale(100, 5000)] * 16)
     nb = ctx.evaluations - before
     # a silent generator regression is a harness error, not a pass
     floors = {"tree-order!=name-order": 0.15, "type:dir<->file": 0.10, "collision-family-both-sides": 0.20, "unique-exact-rename": 0.05,
